@@ -45,7 +45,7 @@ type verdict struct {
 }
 
 func judge(schema *pgbind.Schema, it xlate.Item, km *xlate.Mapper) verdict {
-	q, err := cyq.Parse(it.Text)
+	q, err := xlate.ParseItem(it)
 	if err != nil {
 		return verdict{outcome: "parse-error"}
 	}
@@ -97,7 +97,7 @@ func main() {
 		k = 3
 	}
 	items := xlate.Items(k)
-	run.Set("feature_bound_k", int64(k))
+	run.Set("feature_k_bound", int64(k))
 	run.Set("rule", fmt.Sprintf("all feature sets with <= %d features over %d features on top of MATCH (n) RETURN n (read fragment + parameters + shortest paths + updating clauses), plus every corpus query with its parameters; every emitted statement bound by pgbind", k, len(cyq.FeatureNames(xlate.AllOptions))))
 	run.Set("schema_tables", int64(len(schema.Tables)))
 	run.Set("schema_functions", int64(len(schema.Funcs)))
